@@ -19,30 +19,57 @@ def cdO (p : Fun.CheckedProgram) : Option Fun.Ty → Bool
   | some τ => Fun.isCodataTy p τ
   | none => false
 
+/-- the annotation is present -/
+def annO : Option Fun.Ty → Bool
+  | some _ => true
+  | none => false
+
+theorem annO_some {ty : Option Fun.Ty} (h : annO ty = true) : ∃ τ, ty = some τ := by
+  cases ty with
+  | none => cases h
+  | some τ => exact ⟨τ, rfl⟩
+
+/-- the annotated type of the term is `i64` (operands of `if`, `print`, `exit`) -/
+def i64T (t : Fun.Term) : Bool :=
+  match getType t with
+  | some .i64 => true
+  | _ => false
+
+theorem i64T_iff {t : Fun.Term} : i64T t = true ↔ getType t = some .i64 := by
+  unfold i64T
+  split
+  · rename_i h; simp [h]
+  · rename_i h
+    constructor
+    · intro e; cases e
+    · intro e; exact absurd e (h)
+
 mutual
-  /-- the terms covered by the simulation proof (in evaluation position): every evaluated term has
-  an integer or data type; operands of operators and arguments of calls / constructors /
-  destructors are pure (`goodP`); a codata-typed `let` binds a variable or a `new`; the scrutinee
-  of a destructor call is a variable or a `new` of codata type; no call of `main`; clause binders
-  are pairwise distinct and are the names of the typed clause context -/
+  /-- the terms covered by the simulation proof (in evaluation position), as far as this is not a
+  matter of typing (the typing of the machine states is carried separately, `STM` of
+  Scc/Fun2Core/SemCodTyping.lean): annotations are present; operands of operators and arguments of
+  calls / constructors / destructors are pure (`goodP`); a codata-typed `let` binds a variable or a
+  `new`; no call of `main`; clause binders are pairwise distinct and are the names of the typed
+  clause context; the operands of `if`, `print`, `exit` are annotated `i64` -/
   def good (p : Fun.CheckedProgram) : Fun.Term → Bool
-    | .var _ ty _ => ncdO p ty
+    | .var _ ty _ => annO ty
     | .lit _ => true
     | .op a _ b => goodP p a && goodP p b
-    | .ifc _ a b t e ty => good p a && good p b && good p t && good p e && ncdO p ty
-    | .ifz _ a t e ty => good p a && good p t && good p e && ncdO p ty
-    | .print _ a n ty => good p a && good p n && ncdO p ty
+    | .ifc _ a b t e ty =>
+      good p a && good p b && good p t && good p e && annO ty && i64T a && i64T b
+    | .ifz _ a t e ty => good p a && good p t && good p e && annO ty && i64T a
+    | .print _ a n ty => good p a && good p n && annO ty && i64T a
     | .letIn _ vt b i ty =>
-      ncdO p ty && good p i && (if Fun.isCodataTy p vt then goodP p b && pureS b else good p b)
-    | .call f as ty => f != "main" && goodPs p as && ncdO p ty
-    | .ctor _ as ty => goodPs p as && ncdO p ty
-    | .dtor s _ _ as ty => pureS s && goodP p s && cdO p s.getType && goodPs p as && ncdO p ty
-    | .case s _ cs ty => good p s && ncdO p s.getType && goodClauses p cs && ncdO p ty
-    | .label _ t ty => good p t && ncdO p ty
-    | .goto _ t ty => good p t && ncdO p t.getType && ncdO p ty
-    | .exit t ty => good p t && ncdO p ty
+      annO ty && good p i && (if Fun.isCodataTy p vt then goodP p b && pureS b else good p b)
+    | .call f as ty => f != "main" && goodPs p as && annO ty
+    | .ctor _ as ty => goodPs p as && annO ty
+    | .dtor s _ _ as ty => good p s && annO s.getType && goodPs p as && annO ty
+    | .case s _ cs ty => good p s && annO s.getType && goodClauses p cs && annO ty
+    | .label _ t ty => good p t && annO ty
+    | .goto _ t ty => good p t && annO t.getType && annO ty
+    | .exit t ty => good p t && annO ty && i64T t
     | .paren t => good p t
-    | .new .. => false
+    | .new cs ty => goodClauses p cs && annO ty
   /-- pure terms (operands, arguments, by-name bindings) -/
   def goodP (p : Fun.CheckedProgram) : Fun.Term → Bool
     | .var .. => true
@@ -63,44 +90,11 @@ mutual
   def goodClauses (p : Fun.CheckedProgram) : Fun.Clauses → Bool
     | .nil => true
     | .cons _ _ names ctx b r =>
-      good p b && ncdO p b.getType && decide names.Nodup && decide (ctx.map (·.var) = names) &&
+      good p b && annO b.getType && decide names.Nodup && decide (ctx.map (·.var) = names) &&
       goodClauses p r
 end
 
 abbrev GP (p : Fun.CheckedProgram) : Fun.Term → Prop := fun t => good p t = true
-
-/-- every term of the fragment in evaluation position has an integer or data type -/
-theorem good_ncd (p : Fun.CheckedProgram) : ∀ t : Fun.Term, good p t = true →
-    ncdO p t.getType = true
-  | .var _ ty _, h => by simpa [good, Fun.Term.getType] using h
-  | .lit _, _ => by simp [Fun.Term.getType, ncdO, Fun.isCodataTy]
-  | .op .., _ => by simp [Fun.Term.getType, ncdO, Fun.isCodataTy]
-  | .ifc _ _ _ _ _ ty, h => by
-    simp only [good, Bool.and_eq_true] at h; simpa [Fun.Term.getType] using h.2
-  | .ifz _ _ _ _ ty, h => by
-    simp only [good, Bool.and_eq_true] at h; simpa [Fun.Term.getType] using h.2
-  | .print _ _ _ ty, h => by
-    simp only [good, Bool.and_eq_true] at h; simpa [Fun.Term.getType] using h.2
-  | .letIn _ _ _ _ ty, h => by
-    simp only [good, Bool.and_eq_true] at h; simpa [Fun.Term.getType] using h.1.1
-  | .call _ _ ty, h => by
-    simp only [good, Bool.and_eq_true] at h; simpa [Fun.Term.getType] using h.2
-  | .ctor _ _ ty, h => by
-    simp only [good, Bool.and_eq_true] at h; simpa [Fun.Term.getType] using h.2
-  | .dtor _ _ _ _ ty, h => by
-    simp only [good, Bool.and_eq_true] at h; simpa [Fun.Term.getType] using h.2
-  | .case _ _ _ ty, h => by
-    simp only [good, Bool.and_eq_true] at h; simpa [Fun.Term.getType] using h.2
-  | .label _ _ ty, h => by
-    simp only [good, Bool.and_eq_true] at h; simpa [Fun.Term.getType] using h.2
-  | .goto _ _ ty, h => by
-    simp only [good, Bool.and_eq_true] at h; simpa [Fun.Term.getType] using h.2
-  | .exit _ ty, h => by
-    simp only [good, Bool.and_eq_true] at h; simpa [Fun.Term.getType] using h.2
-  | .paren t, h => by
-    simp only [good] at h
-    simpa [Fun.Term.getType] using good_ncd p t h
-  | .new .., h => by simp [good] at h
 
 mutual
   theorem goodP_pureFO (p : Fun.CheckedProgram) : ∀ t : Fun.Term, goodP p t = true →
